@@ -62,6 +62,17 @@ def _factory(problem_statement, algorithm, policy_supporter, study_name):
       problem_statement, policy_supporter, lambda p, seed=None: RecDesigner(p))
 
 
+_KEPT = {}
+
+
+def _factory_kept(problem_statement, algorithm, policy_supporter, study_name):
+  """A policy factory that caches the policy (with the supporter it was built on) per study, as a long-lived Pythia
+  process may do (vizier/_src/pyglove/oss_vizier.py does): the policy object survives across requests."""
+  if study_name not in _KEPT:
+    _KEPT[study_name] = _factory(problem_statement, algorithm, policy_supporter, study_name)
+  return _KEPT[study_name]
+
+
 def _suggest(sv, client, n):
   op = sv.SuggestTrials(vs.SuggestTrialsRequest(parent=S, suggestion_count=n, client_id=client))
   assert op.done and not op.HasField('error'), op
@@ -123,14 +134,14 @@ def _act(sv, kind, model):
 
 # quick tier: first two actions from complete_newest, add_completed, delete_newest, request, nothing, infeasible without a
 # reason, nine completed trials added at once; last two from delete_three_newest, add_completed, complete_newest,
-# delete_newest, nothing
+# delete_newest, nothing, delete_oldest
 _Q1 = [0, 5, 3, 6, 8, 10, 11]
-_Q2 = [9, 5, 0, 3, 8]
+_Q2 = [9, 5, 0, 3, 8, 4]
 
 
 def history_quick(a1: int, a2: int, a3: int, a4: int, n1: int, n2: int) -> bool:
   """
-  pre: 0 <= a1 <= 6 and 0 <= a2 <= 6 and 0 <= a3 <= 4 and 0 <= a4 <= 4 and 1 <= n1 <= 2 and 1 <= n2 <= 2
+  pre: 0 <= a1 <= 6 and 0 <= a2 <= 6 and 0 <= a3 <= 5 and 0 <= a4 <= 5 and 1 <= n1 <= 2 and 1 <= n2 <= 2
   post: _
   """
   import os
@@ -138,7 +149,7 @@ def history_quick(a1: int, a2: int, a3: int, a4: int, n1: int, n2: int) -> bool:
   sl = os.environ.get('VERIF_SLICE')
   if sl is not None and a1 != int(sl):
     return True
-  a2, a3, a4, n1, n2 = conc(a2, 0, 6), conc(a3, 0, 4), conc(a4, 0, 4), conc(n1, 1, 2), conc(n2, 1, 2)
+  a2, a3, a4, n1, n2 = conc(a2, 0, 6), conc(a3, 0, 5), conc(a4, 0, 5), conc(n1, 1, 2), conc(n2, 1, 2)
   return _history(_Q1[a1], _Q1[a2], _Q2[a3], _Q2[a4], n1, n2, (a1, a2, a3, a4, n1, n2))
 
 
@@ -187,7 +198,10 @@ def _history(a1, a2, a3, a4, n1, n2, args):
   with NoTracing():
     del LOG[:]
     sv = vizier_service.VizierServicer(database_url=None)
-    sv.default_pythia_service = pythia_service.PythiaServicer(sv, policy_factory=_factory)
+    import os
+    _KEPT.clear()
+    keep = bool(os.environ.get('VERIF_C12_KEEP'))
+    sv.default_pythia_service = pythia_service.PythiaServicer(sv, policy_factory=_factory_kept if keep else _factory)
     svc.add_study(sv)
     model = {'trials': {}, 'gen': {}, 'delivered': [], 'completed_instances': [], 'completed_at': {}}
     ok = _do_suggest(sv, 'w', n1, model)
